@@ -127,7 +127,22 @@ def generate(rng, tier):
             elif kind == 'warn_filters':
                 f['how'] = rng.choice(['simplefilter', 'insert', 'reset'])
             plan.append(f)
-    return {'profile': ID, 'world': world, 'ops': ops, 'plan': plan, 'env': {'listing_seed': rng.randint(0, 99)}}
+    env = {'listing_seed': rng.randint(0, 99)}
+    if rng.random() < 0.3:
+        env['pkgroot_on_path'] = rng.choice([0, 1, 2])
+    if colored and rng.random() < 0.6:
+        env['no_pygments'] = True
+    if env.get('pkgroot_on_path') is not None:
+        # (a module body that deletes xdoctest's temporary entry *while an equal entry of the
+        # user exists* defeats the documented recovery heuristic of PythonPathContext, which
+        # then removes the user's entry: recorded in DESIGN.md as out of scope, not generated)
+        for f in plan:
+            if f.get('kind') == 'syspath' and f.get('how') == 'remove_tmp':
+                f['how'] = 'append'
+    for f in plan:
+        if f.get('kind') == 'swap_stdout':
+            f['how'] = rng.choice(['open', 'closed', 'writeonly'])
+    return {'profile': ID, 'world': world, 'ops': ops, 'plan': plan, 'env': env}
 
 
 N_SWEEPS_THOROUGH = 400
@@ -172,7 +187,8 @@ def check(rec):
             continue
         added = [x[2] for x in e.get('import_log', []) if x[1] == 'added']
         removed = [x[2] for x in e.get('import_log', []) if x[1] == 'removed']
-        for r, detail in harness.compare_snaps(e['snap0'], e['snap1'], (added, removed)):
+        edited = any(x[1] == 'removed_tmp' for x in e.get('import_log', []))
+        for r, detail in harness.compare_snaps(e['snap0'], e['snap1'], (added, removed, False, edited)):
             out.append(common.viol('C12.' + r, '%s after DocTest.run %s ended by %s' % (
                 detail, common.exec_label(e), common.how_ended(e)),
                 dtid=e['dtid'], k=e['k'], how=common.how_ended(e)))
@@ -182,7 +198,8 @@ def check(rec):
         added = [x[2] for x in im.get('import_log', []) if x[1] == 'added']
         removed = [x[2] for x in im.get('import_log', []) if x[1] == 'removed']
         body_filter = any(x[1] == 'warnfilter' for x in im.get('import_log', []))
-        for r, detail in harness.compare_snaps(im['snap0'], im['snap1'], (added, removed, body_filter)):
+        edited = any(x[1] == 'removed_tmp' for x in im.get('import_log', []))
+        for r, detail in harness.compare_snaps(im['snap0'], im['snap1'], (added, removed, body_filter, edited)):
             out.append(common.viol('C12.R5', '%s [%s] after import_module_from_path(%s) %s %s' % (
                 detail, r, im['modpath'], im['how'], im['exc'] or ''),
                 modpath=im['modpath'], how=im['how'], exc=im['exc'], sub=r))
